@@ -18,8 +18,11 @@ CONFIG = {
             "must predict every observation; spec_ok = decoded actions equal, action lists of the two continuations equal, outcomes equal, "
             "final states equal on the persisted observables. Non-trivial = at least one fork with a non-empty continuation.",
     "exhaustive": {"quick": False, "thorough": False},
-    "explanation": "theorems are about every model state / the exhibited witnesses; the forks tie persist/restore of the model to the real "
-                   "encode/decode on reachable router states (nested tracker maps, equivocation records, pipelined payloads, pending tails)",
+    "explanation": "C07_persist_keeps_tracking: every state; C07_restore_persist_id_on_observables_strict / _partial: every reachable state and "
+                   "every continuation, protocols without DynamicFilterTimeout (strict = lockstep incl. panics when no verified late old-round "
+                   "proposal-vote is delivered; partial = equality wherever both runs are defined); the two _refuted theorems are the recorded "
+                   "findings for DynamicFilterTimeout protocols. The forks tie persist/restore of the model to the real encode/decode on reachable "
+                   "router states (nested tracker maps, equivocation records, pipelined payloads, pending tails)",
     "assumptions": ["crypto verification tasks in flight at the crash are lost (their voteVerified events are not delivered after the restart)",
                     "SQLite single-row write of the crash DB is atomic (not modelled: the harness round-trips the bytes in memory)",
                     "timing fields (validatedAt/receivedAt, credential arrival history) are outside the model: decode re-creates "
